@@ -97,12 +97,15 @@ class SymScreen:
         cf[L.cursor['attr']] = sym_charopts(ctx, L, 'cattr', ' ', flags=(attr == 'sym'), colours=(attr == 'sym'))
         f[S['cursor']] = Agg('Cursor', cf)
         # margins
-        if margins == 'sym':
+        if margins == 'sym' or (type(margins) is tuple and margins[0] == 'among'):
             md = ctx.bvvar('m_some', 64)
             top = ctx.bvvar('m_top', 32)
             bot = ctx.bvvar('m_bot', 32)
             ctx.assume(z3.ULE(md, 1))
             ctx.assume(z3.Implies(md == 1, z3.And(z3.ULT(top, bot), z3.ULT(bot, Ln))))
+            if margins != 'sym':
+                # a region, if set, is one of the listed (top, bottom) pairs
+                ctx.assume(z3.Implies(md == 1, z3.Or([z3.And(top == t_, bot == b_) for (t_, b_) in margins[1]])))
             mf = [None, None]
             mf[L.margins['top']] = Int('u32', top)
             mf[L.margins['bottom']] = Int('u32', bot)
